@@ -64,6 +64,10 @@ type c02Case struct {
 	RefineUse     int    `json:"refine_use,omitempty"`
 	RefineDefault string `json:"refine_default,omitempty"`
 	refinedHere   bool
+	// InCase: leaf x is written inside 'choice xch { case xk { ... } }' (a relative leafref path then leaves the case);
+	// Mandatory: leaf x states mandatory true (and no default of its own): it has no default then, whatever its typedefs say
+	InCase    bool `json:"in_case,omitempty"`
+	Mandatory bool `json:"mandatory,omitempty"`
 	Decoy    bool        `json:"decoy,omitempty"` // a sibling container defines unrelated typedefs with the same names first
 	Lo       int         `json:"lo"` // bounds of the base type as far as the generator uses them
 	Hi       int         `json:"hi"`
@@ -300,6 +304,8 @@ func c02Gen(t *rapid.T) c02Case {
 			c.Lvls[i].Units = fmt.Sprintf("u%d", i)
 		}
 	}
+	c.InCase = rapid.IntRange(0, 3).Draw(t, "in-case") == 0
+	c.Mandatory = c.RefineUse == 0 && rapid.IntRange(0, 4).Draw(t, "mandatory") == 0
 	return c
 }
 
@@ -488,7 +494,13 @@ func (c c02Case) leafYang(ind string) string {
 	if l.Units != "" {
 		fmt.Fprintf(&b, "%s units %q;\n", ind, l.Units)
 	}
+	if c.Mandatory && !c.LeafList && l.Default == "" {
+		fmt.Fprintf(&b, "%s mandatory true;\n", ind)
+	}
 	b.WriteString(ind + "}\n")
+	if c.InCase {
+		return ind + "choice xch {\n" + ind + " case xk {\n" + b.String() + ind + " }\n" + ind + "}\n"
+	}
 	return b.String()
 }
 
@@ -672,6 +684,9 @@ func (c c02Case) expectDefault() (string, bool) {
 	if c.refinedHere {
 		return c.RefineDefault, true
 	}
+	if c.Mandatory && !c.LeafList && c.Lvls[len(c.Lvls)-1].Default == "" {
+		return "", false // RFC 7950 7.6.1: the type's default is the leaf's unless the leaf is mandatory
+	}
 	for i := len(c.Lvls) - 1; i >= 0; i-- {
 		if c.Lvls[i].Default != "" {
 			return c.Lvls[i].Default, true
@@ -734,6 +749,12 @@ func c02Run(c c02Case, o *hx.Obs) {
 	o.Class("levels=%d", len(c.Lvls)-1)
 	o.Class("uses=%d grouping=%v", c.Uses, c.Grouping)
 	o.Class("decoy=%v", c.Decoy)
+	if c.InCase {
+		o.Class("the leaf sits in a case")
+	}
+	if c.Mandatory && !c.LeafList && c.Lvls[len(c.Lvls)-1].Default == "" {
+		o.Class("the leaf is mandatory")
+	}
 	scopes := map[string]bool{}
 	for _, l := range c.Lvls {
 		if l.Name != "" {
